@@ -61,6 +61,25 @@ func rbody(c rscen, ctx *hk.Ctx) {
 				buf := make([]byte, 1500)
 				_, _, _ = rd.Read(buf, nil)
 			}))
+		case "rtcp-out-sr":
+			pliOut++
+			ths = append(ths, vsched.GoApp("rtcp-out-sr", func() {
+				// an outgoing compound with a sender report and a receiver reference time (both are remembered
+				// by the recorder for round-trip computations) and a PLI
+				_, _ = s.RTCPW.Write([]rtcp.Packet{
+					&rtcp.SenderReport{SSRC: l1.Info.SSRC, NTPTime: 0xe000000000000000, RTPTime: 1, PacketCount: 1, OctetCount: 1},
+					&rtcp.ExtendedReport{SenderSSRC: l1.Info.SSRC, Reports: []rtcp.ReportBlock{&rtcp.ReceiverReferenceTimeReportBlock{NTPTimestamp: 0xe000000000000000}}},
+					&rtcp.PictureLossIndication{SenderSSRC: 1, MediaSSRC: r1.Info.SSRC},
+				}, nil)
+			}))
+		case "rtcp-in-rr":
+			rd, set := s.NewRTCPReader()
+			ths = append(ths, vsched.GoApp("rtcp-in-rr", func() {
+				// a receiver report and a DLRR: the recorder looks up the remembered sender reports / reference times
+				set(append(hk.RawRR(0x99, l1.Info.SSRC, 1, 0xe0000000>>0, 1), hk.RawXRDLRR(r1.Info.SSRC, r1.Info.SSRC, 0xe0000000, 1)...))
+				buf := make([]byte, 1500)
+				_, _, _ = rd.Read(buf, nil)
+			}))
 		case "rtcp-out":
 			pliOut++
 			ths = append(ths, vsched.GoApp("rtcp-out", func() {
@@ -109,6 +128,9 @@ func rscenarios(tier string) []rscen {
 		{[]string{"r", "rtcp-out"}, b},
 		{[]string{"r", "rtcp-in", "rtcp-out"}, b},
 		{[]string{"w", "r", "rtcp-in"}, b},
+		{[]string{"w", "rtcp-out"}, b},
+		{[]string{"w", "rtcp-out-sr", "rtcp-in-rr"}, b},
+		{[]string{"r", "rtcp-out-sr", "rtcp-in-rr"}, b},
 	}
 }
 
